@@ -53,6 +53,18 @@ func c19Dst(r *Rng) []byte {
 	}
 }
 
+func c19DstLenClass(n int) string {
+	switch {
+	case n == 0:
+		return "0"
+	case n < 254:
+		return "short"
+	case n <= 256:
+		return fmt.Sprint(n)
+	}
+	return "oversize"
+}
+
 func c19ExpLen(r *Rng, hashLen int) int {
 	switch r.IntN(8) {
 	case 0:
@@ -82,9 +94,28 @@ func c19Expanders(c *Ctx) {
 		{"sha3_256", rfc9380.NewXMDMessageExpander(sha3.New256), 32},
 		{"blake2b512", rfc9380.NewXMDMessageExpander(func() hash.Hash { h, _ := blake2b.New512(nil); return h }), 64},
 	}
+	// deterministic boundary grid first: DST lengths around the 255-octet rule of RFC 9380 §5.3.3 × output lengths
+	type expCase struct {
+		dst, msg []byte
+		l        int
+	}
+	grid := func(hashLen int) []expCase {
+		var cs []expCase
+		for _, dl := range []int{0, 1, 254, 255, 256, 257, 400} {
+			for _, ol := range []int{1, hashLen, hashLen + 1, 3*hashLen - 1} {
+				cs = append(cs, expCase{c19RandBytes2(r, dl), c19RandBytes(r, r.IntN(80)), ol})
+			}
+		}
+		return cs
+	}
 	for _, x := range xmds {
+		cases := grid(x.size)
 		for i := 0; i < n; i++ {
-			dst, msg, l := c19Dst(r), c19RandBytes(r, r.IntN(200)), c19ExpLen(r, x.size)
+			cases = append(cases, expCase{c19Dst(r), c19RandBytes(r, r.IntN(200)), c19ExpLen(r, x.size)})
+		}
+		for _, cs := range cases {
+			dst, msg, l := cs.dst, cs.msg, cs.l
+			c.Count(fmt.Sprintf("xmd.dstlen.%s", c19DstLenClass(len(dst))))
 			res := safely(func() string { return hexBytes(x.e.ExpandMessage(dst, msg, uint(l))) })
 			if strings.HasPrefix(res, "panic:") {
 				res = "panic"
@@ -101,7 +132,11 @@ func c19Expanders(c *Ctx) {
 		name string
 		k    uint
 	}{{"shake128", 128}, {"shake256", 256}} {
+		cases := grid(32)
 		for i := 0; i < n; i++ {
+			cases = append(cases, expCase{c19Dst(r), c19RandBytes(r, r.IntN(200)), c19ExpLen(r, 32)})
+		}
+		for _, cs := range cases {
 			var h hash.XOF
 			if x.name == "shake128" {
 				h = sha3.NewSHAKE128()
@@ -109,7 +144,8 @@ func c19Expanders(c *Ctx) {
 				h = sha3.NewSHAKE256()
 			}
 			e := rfc9380.NewXOFMessageExpander(h, x.k)
-			dst, msg, l := c19Dst(r), c19RandBytes(r, r.IntN(200)), c19ExpLen(r, 32)
+			dst, msg, l := cs.dst, cs.msg, cs.l
+			c.Count(fmt.Sprintf("xof.dstlen.%s", c19DstLenClass(len(dst))))
 			res := safely(func() string { return hexBytes(e.ExpandMessage(dst, msg, uint(l))) })
 			if strings.HasPrefix(res, "panic:") {
 				res = "panic"
